@@ -15,6 +15,9 @@ import (
 	"github.com/sdcio/yang-parser/schema"
 	"github.com/sdcio/yang-parser/xpath"
 	"pgregory.net/rapid"
+	"unicode/utf8"
+	"verifharness/c04"
+	"verifharness/xp"
 )
 
 // Case: where the expression is written, what kind of statement carries it, which expression.
@@ -508,6 +511,156 @@ var scope = fw.Register(&fw.Prop[Case]{
 		"defining module binds; non-trivial = defining and using module bind the prefix differently",
 	Gen: genCase, Check: checkCase,
 })
+
+// ---------------------------------------------------------------- embedded sentences
+//
+// The syntax half of the property in its full width: the sentences of the C04 generators (valid ones, one token edit
+// away from valid, token soups, names at character-class boundaries) are written into modules, and the module set
+// compiles iff the independent recogniser of C04 accepts the sentence.
+
+type EmbCase struct {
+	Inner     c04.Case `json:"inner"`
+	Carrier   string   `json:"carrier"`   // must | when | path
+	Placement string   `json:"placement"` // direct grouping-unused grouping-remote typedef-unused submodule augment
+}
+
+func genEmb(t *rapid.T) EmbCase {
+	c := EmbCase{Inner: c04.Gen(t)}
+	if rapid.IntRange(0, 3).Draw(t, "embcorpus") == 0 {
+		// ... or one of C04's hand-written lexical edge cases
+		corpus := c04.Corpus()
+		c.Inner = c04.Case{Grammar: "expr", Src: fw.BStr(corpus[rapid.IntRange(0, len(corpus)-1).Draw(t, "embcorpusidx")]), MapFn: true}
+	}
+	pl := []string{"direct", "direct", "grouping-unused", "grouping-remote", "submodule", "augment"}
+	if c.Inner.Grammar == "leafref" {
+		c.Carrier = "path"
+		pl = append(pl, "typedef-unused")
+	} else {
+		c.Carrier = []string{"must", "when"}[rapid.IntRange(0, 1).Draw(t, "embcarrier")]
+	}
+	c.Placement = pl[rapid.IntRange(0, len(pl)-1).Draw(t, "embplacement")]
+	return c
+}
+
+func embKnown(p string) bool { return p == "" || p == "p" || p == "q" }
+
+func checkEmb(c EmbCase) fw.Outcome {
+	src := string(c.Inner.Src)
+	out := fw.Outcome{Labels: []string{"emb-placement:" + c.Placement, "emb-carrier:" + c.Carrier}, Key: c.Carrier + c.Placement + src}
+	// line breaks inside a quoted YANG string are subject to indentation stripping: they are written as blanks (both
+	// are expression white space); text that is not UTF-8 is left out
+	src = strings.NewReplacer("\n", " ", "\r", " ").Replace(src)
+	if strings.ContainsAny(src, "\x00") || !utf8.ValidString(src) {
+		out.Skip = true
+		return out
+	}
+	var v xp.Verdict
+	if c.Inner.Grammar == "leafref" {
+		v = xp.LeafrefVerdict(src, embKnown)
+	} else {
+		v = xp.ExprVerdict(src, embKnown)
+	}
+	if v == xp.Grey {
+		out.Skip = true
+		return out
+	}
+	if src == "" && c.Carrier == "when" {
+		c.Carrier = "must" // (the module model spells "no when" as the empty string)
+	}
+	cn := leaf("carrier")
+	lr := &sg.TypeSpec{Name: "leafref", Path: src}
+	switch c.Carrier {
+	case "must":
+		cn.Musts = []sg.Must{{Expr: src}}
+	case "when":
+		cn.When = src
+	default:
+		cn.Type = lr
+	}
+	top := func(n string) []*sg.Node {
+		return []*sg.Node{{Kind: "container", Name: n, Kids: []*sg.Node{leaf("anchor")}}}
+	}
+	ma := &sg.Mod{Name: "ma", Prefix: "ma", Nodes: top("ma-top")}
+	mb := &sg.Mod{Name: "mb", Prefix: "mb", Nodes: top("mb-top")}
+	pq := []sg.Import{{Mod: "ma", Prefix: "p"}, {Mod: "mb", Prefix: "q"}}
+	m1 := &sg.Mod{Name: "m1", Prefix: "m1", Imports: pq, Nodes: top("m1-top")}
+	mods := []*sg.Mod{ma, mb, m1}
+	definer := "m1"
+	switch c.Placement {
+	case "direct":
+		m1.Nodes[0].Kids = append(m1.Nodes[0].Kids, cn)
+	case "grouping-unused":
+		m1.Groupings = []*sg.Grouping{{Name: "g", Kids: []*sg.Node{cn}}}
+	case "grouping-remote":
+		// the using module binds the two prefixes the other way round
+		m1.Groupings = []*sg.Grouping{{Name: "g", Kids: []*sg.Node{cn}}}
+		m2 := &sg.Mod{Name: "m2", Prefix: "m2", Imports: []sg.Import{{Mod: "m1", Prefix: "m1"}, {Mod: "mb", Prefix: "p"}, {Mod: "ma", Prefix: "q"}}, Nodes: top("m2-top")}
+		m2.Nodes[0].Kids = append(m2.Nodes[0].Kids, &sg.Node{Kind: "uses", Name: "m1:g"})
+		mods = append(mods, m2)
+	case "typedef-unused":
+		m1.Typedefs = []*sg.Typedef{{Name: "t", Type: lr}}
+	case "submodule":
+		// only the submodule imports the two modules
+		m1.Imports = nil
+		m1.Includes = []string{"m1-sub"}
+		sub := &sg.Mod{Name: "m1-sub", Prefix: "m1", BelongsTo: "m1", Imports: pq, Nodes: top("m1-sub-top")}
+		sub.Nodes[0].Kids = append(sub.Nodes[0].Kids, cn)
+		mods = append(mods, sub)
+		definer = "m1-sub"
+	default:
+		m1.Imports = nil
+		m2 := &sg.Mod{Name: "m2", Prefix: "m2", Imports: append([]sg.Import{{Mod: "m1", Prefix: "m1"}}, pq...), Nodes: top("m2-top")}
+		m2.Augments = []*sg.Augment{{Target: "/m1:m1-top", Kids: []*sg.Node{cn}}}
+		mods = append(mods, m2)
+		definer = "m2"
+	}
+	res := sgc.Compile(mods, sgc.Opts{Features: sgc.AllFeatures{}})
+	var texts []string
+	for _, m := range mods {
+		texts = append(texts, m.Text())
+	}
+	all := strings.Join(texts, "\n")
+	if res.Hang || res.Panic != "" {
+		out.Violation = fmt.Sprintf("%s %q (%s): %s\n%s", c.Carrier, src, c.Placement, res.Describe(), all)
+		return out
+	}
+	wantOK := v == xp.Accept
+	if wantOK {
+		out.Labels = append(out.Labels, "emb-expect:accept")
+	} else {
+		out.Labels = append(out.Labels, "emb-expect:reject")
+	}
+	out.NonTrivial = c.Inner.Near || strings.Contains(src, ":")
+	if res.OK() != wantOK {
+		out.Violation = fmt.Sprintf("%s %q written in %s (placement %s): the recogniser says valid=%v, the compiler says %s\n%s", c.Carrier, src, definer, c.Placement, wantOK, res.Describe(), all)
+		return out
+	}
+	if !wantOK && !res.ParseErr {
+		// the error names the file the statement is written in
+		named := false
+		for _, m := range locRe.FindAllStringSubmatch(res.Err.Error(), -1) {
+			if m[1] == definer {
+				named = true
+			}
+		}
+		if !named {
+			out.Violation = fmt.Sprintf("error for %s %q does not name a statement of %s.yang: %q\n%s", c.Carrier, src, definer, res.Err.Error(), all)
+		}
+	}
+	return out
+}
+
+var embProp = fw.Register(&fw.Prop[EmbCase]{
+	ID: "C15", Name: "embedded",
+	Rule: "the sentences of the C04 generators (valid must/when expressions and leafref paths, the same with one token edited, token soups, names at character-class boundaries) written as must, when " +
+		"or leafref path in a module that binds the prefixes p and q - directly, in an unused grouping, in a grouping used from a module that binds the prefixes the other way round, in an unused typedef, " +
+		"in a submodule that alone imports the modules, in an augment - oracle (differential verdict): the set compiles iff C04's independent recogniser accepts the sentence with exactly those prefixes " +
+		"known, and a rejection names the file the statement is written in; line breaks in a sentence are written as blanks; non-trivial = within one token edit of a valid sentence or with a prefix",
+	Gen: genEmb, Check: checkEmb, Weight: 0.5,
+	MinLabel: []string{"emb-expect:accept", "emb-expect:reject", "emb-carrier:path", "emb-carrier:must"},
+})
+
+func TestEmbedded(t *testing.T) { fw.Run(t, embProp) }
 
 func TestMain(m *testing.M) { fw.Main(m) }
 
